@@ -170,6 +170,9 @@ def resultsVerdict (inp impl : Json) : Verdict :=
     let report := str (field impl "report")
     let caseOf (n : String) : Json := (cases.find? (fun c => str (field c "name") == n)).getD Json.null
     -- per outcome: the admissible alternatives that match what the report showed
+    -- `strict` (model side): the duration class of report() must be the model's; otherwise (the
+    -- property): no wait outlives its context, and nobody waits for a deadline unless some waiter
+    -- has nothing to obtain (returning early from a wait that could only time out loses nothing)
     let judge (f : TracerSlots.Name → List TracerSlots.Op → List TracerSlots.Op → Option Nat × Bool) (strict : Bool) :
         Bool × String :=
       let per := sc.outcomes.zipIdx.map fun ((n, k, i), j) =>
@@ -185,7 +188,7 @@ def resultsVerdict (inp impl : Json) : Verdict :=
       let allMatch := per.all (fun p => !p.2.2.isEmpty)
       let promptOK := per.all (fun p => p.2.2.any (fun a => !a.2))
       let timeoutOK := allMatch && per.any (fun p => p.2.2.any (fun a => a.2))
-      let ok := allMatch && ((report == "prompt" && promptOK) || (report == "timeout" && timeoutOK))
+      let ok := allMatch && ((report == "prompt" && (promptOK || !strict)) || (report == "timeout" && timeoutOK))
       let why :=
         if ok then "" else
         match per.find? (fun p => p.2.2.isEmpty) with
@@ -263,13 +266,19 @@ def handle : Handler := fun op inp impl =>
     | none => bad "unparsable builder op"
     | some ths =>
       let named := bool (field inp "named")
-      let got := implCompletions impl
+      -- the distinct outcomes seen over the repetitions (older replay files: one outcome)
+      let gots : List (List (List String)) :=
+        if isNull (field impl "outcomes") then [implCompletions impl]
+        else (arr (field impl "outcomes")).map (fun o => (arr o).map strList)
       let total := ths.foldl (fun a t => a + t.length) 0
       let lins := TracerSlots.interleavings (total + 1) ths
-      let okModel := lins.any fun l => renderDeliveries (Builder.exec (Builder.init named) l).2 == got
-      let okSpec := lins.any fun l => renderDeliveries (deliveries named l) == got
+      let modelOuts := (lins.map fun l => renderDeliveries (Builder.exec (Builder.init named) l).2).eraseDups
+      let specOuts := (lins.map fun l => renderDeliveries (deliveries named l)).eraseDups
+      let okModel := !gots.isEmpty && gots.all modelOuts.contains
+      let okSpec := !gots.isEmpty && gots.all specOuts.contains
       { agree := okModel, holds := okSpec, nontrivial := lins.length > 1, model := toJson lins.length,
-        why := if okSpec then "" else s!"collector got {got}: no linearisation of the threads delivers that" }
+        why := if okSpec then "" else
+          s!"collector got {gots.filter (fun g => !specOuts.contains g)}: no linearisation of the threads delivers that" }
   | _ => bad ("C16: unknown op " ++ op)
 
 end ConfModel.Driver.C16
